@@ -1,4 +1,527 @@
+(* C08: proofs about the CPU allocator model (CpuAlloc_Model.v). *)
 From stdpp Require Import gmap sets fin_sets sorting.
 From Coq Require Import ZArith Lia.
 From NV Require Import CpuAlloc_Model.
 Open Scope Z_scope.
+
+(* ================================================================ sets and sizes *)
+Lemma sz_nonneg (s : cpuset) : 0 <= sz s.
+Proof. unfold sz. lia. Qed.
+
+Lemma sz_empty : sz ∅ = 0.
+Proof. unfold sz. by rewrite size_empty. Qed.
+
+Lemma sz_union_disj (X Y : cpuset) : X ## Y -> sz (X ∪ Y) = sz X + sz Y.
+Proof. intros H. unfold sz. rewrite size_union by done. lia. Qed.
+
+Lemma sz_singleton (x : N) : sz {[ x ]} = 1.
+Proof. unfold sz. by rewrite size_singleton. Qed.
+
+Lemma sz_subseteq (X Y : cpuset) : X ⊆ Y -> sz X <= sz Y.
+Proof. intros H. unfold sz. apply subseteq_size in H. lia. Qed.
+
+Lemma sz_split (X Y : cpuset) : Y ⊆ X -> sz X = sz Y + sz (X ∖ Y).
+Proof.
+  intros H. rewrite <- sz_union_disj by set_solver.
+  f_equal. apply set_eq. intros x. destruct (decide (x ∈ Y)); set_solver.
+Qed.
+
+(* ================================================================ pairwise disjoint lists *)
+Lemma PD_submseteq (l1 l2 : list cpuset) : l1 ⊆+ l2 -> PD l2 -> PD l1.
+Proof.
+  induction 1 as [|x l1 l2 Hs IH|x y l|x l1 l2 Hs IH|l1 l2 l3 H12 IH12 H23 IH23]; simpl.
+  - done.
+  - intros [Hx Hl]. split; [|by apply IH].
+    rewrite Forall_forall in Hx |- *. intros y Hy. apply Hx. by eapply elem_of_submseteq.
+  - intros [Hx [Hy Hl]]. apply Forall_cons in Hx as [Hxy Hx].
+    split; [constructor; [by symmetry|done]|]. split; done.
+  - intros [_ Hl]. by apply IH.
+  - auto.
+Qed.
+
+Lemma PD_shrink (l1 l2 : list cpuset) : Forall2 (⊆) l1 l2 -> PD l2 -> PD l1.
+Proof.
+  induction 1 as [|x y l1 l2 Hxy Hl IH]; simpl; [done|].
+  intros [Hy HP]. split; [|by apply IH].
+  clear IH HP. induction Hl as [|a b l1 l2 Hab Hl IH]; constructor.
+  - apply Forall_cons in Hy as [Hy _]. set_solver.
+  - apply IH. by apply Forall_cons in Hy as [_ Hy].
+Qed.
+
+Lemma PD_app_inv_r (l1 l2 : list cpuset) : PD (l1 ++ l2) -> PD l2.
+Proof. induction l1; simpl; [done|]. intros [_ ?]; auto. Qed.
+
+Lemma PD_app_disj (l1 l2 : list cpuset) x y : PD (l1 ++ l2) -> x ∈ l1 -> y ∈ l2 -> x ## y.
+Proof.
+  induction l1 as [|a l1 IH]; simpl; [by intros _ ?%elem_of_nil|].
+  intros [Ha HP] Hx Hy. apply elem_of_cons in Hx as [->|Hx]; [|by apply IH].
+  rewrite Forall_forall in Ha. apply Ha. apply elem_of_app. by right.
+Qed.
+
+Lemma filter_submseteq {A} (P : A -> Prop) `{!∀ x, Decision (P x)} (l : list A) : filter P l ⊆+ l.
+Proof.
+  induction l as [|x l IH]; [done|]. rewrite filter_cons.
+  destruct (decide (P x)); by constructor.
+Qed.
+
+Lemma NoDup_submseteq_mono {A} (l1 l2 : list A) : l1 ⊆+ l2 -> NoDup l2 -> NoDup l1.
+Proof.
+  intros [k Hk]%submseteq_Permutation HN. rewrite Hk in HN. by apply NoDup_app in HN as [? _].
+Qed.
+
+Lemma map_shrink {A} (f g : A -> cpuset) (l : list A) : (∀ a, f a ⊆ g a) -> Forall2 (⊆) (map f l) (map g l).
+Proof. intros H. induction l; constructor; auto. Qed.
+
+(* sets derived from a permutation of a filtered list stay pairwise disjoint *)
+Lemma PD_derived {A} (f g : A -> cpuset) (P : A -> Prop) `{!∀ x, Decision (P x)} (l sorted : list A) :
+  (∀ a, f a ⊆ g a) -> PD (map g l) -> sorted ≡ₚ filter P l -> PD (map f sorted).
+Proof.
+  intros Hfg HP Hperm.
+  apply PD_shrink with (map g sorted); [by apply map_shrink|].
+  eapply PD_submseteq; [|exact HP].
+  apply (fmap_submseteq g). etrans; [by apply Permutation_submseteq|apply filter_submseteq].
+Qed.
+
+(* ================================================================ the helper invariant *)
+(* result and from partition the original set; |result| + cnt = requested count; cnt >= 0 *)
+Definition inv (from0 : cpuset) (cnt0 : Z) (h : helper) : Prop :=
+  h_res h ## h_from h ∧ h_res h ∪ h_from h = from0 ∧ sz (h_res h) + h_cnt h = cnt0 ∧ 0 <= h_cnt h.
+
+Lemma take_inv f0 c0 s h : inv f0 c0 h -> s ⊆ h_from h -> sz s <= h_cnt h -> inv f0 c0 (take s h).
+Proof.
+  intros (Hd & Hu & Hc & Hn) Hs Hle. unfold inv, take; simpl.
+  split; [set_solver|]. split.
+  { rewrite <- Hu. apply set_eq. intros x. destruct (decide (x ∈ s)); set_solver. }
+  split; [|lia]. rewrite sz_union_disj by set_solver. lia.
+Qed.
+
+Lemma bump_inv f0 c0 l h : inv f0 c0 h -> inv f0 c0 (bump l h).
+Proof. intros H. exact H. Qed.
+
+Lemma take_from s h : h_from (take s h) = h_from h ∖ s.
+Proof. done. Qed.
+
+Lemma take_fitting_inv f0 c0 sets : ∀ h,
+  PD sets -> Forall (λ s, s ⊆ h_from h) sets -> inv f0 c0 h -> inv f0 c0 (take_fitting sets h).
+Proof.
+  induction sets as [|s rest IH]; intros h HP HF Hi; cbn [take_fitting]; [done|].
+  destruct HP as [Hs HP]. apply Forall_cons in HF as [Hsf HF].
+  destruct (sz s <=? h_cnt h) eqn:E.
+  - apply Z.leb_le in E. assert (Hi' := take_inv _ _ _ _ Hi Hsf E).
+    destruct (h_cnt (take s h) =? 0); [done|].
+    apply IH; [done| |done]. rewrite take_from.
+    rewrite Forall_forall in Hs, HF |- *. intros y Hy. specialize (Hs y Hy). specialize (HF y Hy). set_solver.
+  - by apply IH.
+Qed.
+
+Lemma take_until_misfit_inv f0 c0 sets : ∀ h,
+  PD sets -> Forall (λ s, s ⊆ h_from h) sets -> inv f0 c0 h -> inv f0 c0 (take_until_misfit sets h).
+Proof.
+  induction sets as [|s rest IH]; intros h HP HF Hi; cbn [take_until_misfit]; [done|].
+  destruct HP as [Hs HP]. apply Forall_cons in HF as [Hsf HF].
+  destruct (h_cnt h <? sz s) eqn:E; [done|].
+  apply Z.ltb_ge in E. assert (Hi' := take_inv _ _ _ _ Hi Hsf E).
+  destruct (h_cnt (take s h) =? 0); [done|].
+  apply IH; [done| |done]. rewrite take_from.
+  rewrite Forall_forall in Hs, HF |- *. intros y Hy. specialize (Hs y Hy). specialize (HF y Hy). set_solver.
+Qed.
+
+(* takeIdleThreads' loop: invariant, and completion when there are enough candidates *)
+Lemma take_each_inv f0 c0 l : ∀ h,
+  NoDup (map c_id l) -> Forall (λ c, c_id c ∈ h_from h) l -> inv f0 c0 h -> 0 < h_cnt h ->
+  inv f0 c0 (take_each l h) ∧ (h_cnt h <= Z.of_nat (length l) -> h_cnt (take_each l h) = 0).
+Proof.
+  induction l as [|c rest IH]; intros h HN HF Hi Hpos; cbn [take_each].
+  { split; [done|]. simpl. lia. }
+  cbn [map] in HN. apply NoDup_cons in HN as [Hc HN]. apply Forall_cons in HF as [Hcf HF].
+  assert (Hi' : inv f0 c0 (take {[c_id c]} h)).
+  { apply take_inv; [done|set_solver|rewrite sz_singleton; lia]. }
+  assert (Hcnt : h_cnt (take {[c_id c]} h) = h_cnt h - 1) by (simpl; rewrite sz_singleton; lia).
+  destruct (h_cnt (take {[c_id c]} h) =? 0) eqn:E.
+  { apply Z.eqb_eq in E. split; [done|]. by intros _. }
+  apply Z.eqb_neq in E.
+  destruct (IH (take {[c_id c]} h)) as [H1 H2]; [done| |done|lia|].
+  { rewrite take_from. rewrite Forall_forall in HF |- *. intros y Hy. specialize (HF y Hy).
+    assert (c_id y ≠ c_id c); [|set_solver].
+    intros Heq. apply Hc. rewrite <- Heq. apply elem_of_list_fmap. eauto. }
+  split; [done|]. intros Hle. apply H2. rewrite Hcnt. simpl in Hle. lia.
+Qed.
+
+(* ================================================================ stages preserve the invariant *)
+Section stage_proofs.
+Context (t : topo) (o : orders) (prefer : prio) (Hwf : topo_wf t) (Hok : orders_ok o).
+
+Lemma pkg_cset_sub p : pkg_cset t prefer p ⊆ p.2.
+Proof. unfold pkg_cset. destruct (prio_set t prefer); set_solver. Qed.
+
+Lemma take_idle_packages_inv f0 c0 h : inv f0 c0 h -> inv f0 c0 (take_idle_packages t o prefer h).
+Proof.
+  intros Hi. unfold take_idle_packages.
+  destruct Hok as (Hp & _). specialize (Hp h).
+  set (idle := filter _ (t_pkgs t)) in *. specialize (Hp idle).
+  destruct (o_pkgs o h idle) as [sorted lvl]; simpl in Hp.
+  apply take_fitting_inv; [| |by apply bump_inv].
+  - destruct Hwf as (_ & HPD & _).
+    eapply (PD_derived (pkg_cset t prefer) snd); [apply pkg_cset_sub|exact HPD|exact Hp].
+  - apply Forall_fmap, Forall_forall. intros p Hin. rewrite Hp in Hin.
+    apply elem_of_list_filter in Hin as [Hin _]. apply bool_decide_unpack in Hin. exact Hin.
+Qed.
+
+(* idle cores: distinct picked ids have disjoint online sibling sets *)
+Lemma is_min_unique a b (s : cpuset) : is_min a s = true -> is_min b s = true -> a = b.
+Proof.
+  unfold is_min. rewrite !andb_true_iff, !bool_decide_eq_true.
+  intros [Ha Hla] [Hb Hlb]. specialize (Hla b Hb). specialize (Hlb a Ha). simpl in *. lia.
+Qed.
+
+Lemma PD_cores (l : list cpuinfo) :
+  NoDup (map c_id l) ->
+  (∀ c1 c2, c1 ∈ l -> c2 ∈ l -> core_cset t c1 = core_cset t c2 ∨ core_cset t c1 ## core_cset t c2) ->
+  (∀ c, c ∈ l -> is_min (c_id c) (core_cset t c) = true) ->
+  PD (map (core_cset t) l).
+Proof.
+  induction l as [|x l IH]; intros HN Hpart Hmin; cbn [map PD]; [done|].
+  cbn [map] in HN. apply NoDup_cons in HN as [Hx HN]. split.
+  - apply Forall_fmap, Forall_forall. intros y Hy.
+    destruct (Hpart x y) as [Heq|Hd]; [left|by right| |done].
+    exfalso. apply Hx. assert (c_id x = c_id y) as ->.
+    { eapply is_min_unique; [apply Hmin; left|]. rewrite Heq. apply Hmin. by right. }
+    apply elem_of_list_fmap. eauto.
+  - apply IH; [done| |]; intros; [apply Hpart|apply Hmin]; by try right.
+Qed.
+
+Lemma take_idle_cores_inv f0 c0 h : inv f0 c0 h -> inv f0 c0 (take_idle_cores t o h).
+Proof.
+  intros Hi. unfold take_idle_cores.
+  destruct Hok as (_ & Hp & _). specialize (Hp h).
+  set (idle := filter _ (t_cpus t)) in *. specialize (Hp idle).
+  destruct (o_cores o h idle) as [sorted lvl]; simpl in Hp.
+  destruct Hwf as (Hnd & _ & Hcp & _).
+  assert (Hin : ∀ c, c ∈ sorted -> c ∈ t_cpus t ∧ idle_core t h c).
+  { intros c Hc. rewrite Hp in Hc. apply elem_of_list_filter in Hc. tauto. }
+  apply take_fitting_inv; [| |by apply bump_inv].
+  - apply PD_cores.
+    + rewrite Hp. eapply NoDup_submseteq_mono; [|exact Hnd].
+      apply (fmap_submseteq c_id), filter_submseteq.
+    + intros c1 c2 H1 H2. apply Hin in H1 as [H1 _]. apply Hin in H2 as [H2 _].
+      unfold cores_partition in Hcp. rewrite Forall_forall in Hcp. specialize (Hcp c1 H1).
+      rewrite Forall_forall in Hcp. by apply Hcp.
+    + intros c Hc. apply Hin in Hc as [_ Hc]. unfold idle_core in Hc.
+      apply Is_true_true in Hc. rewrite !andb_true_iff in Hc. tauto.
+  - apply Forall_fmap, Forall_forall. intros c Hc. apply Hin in Hc as [_ Hc]. unfold idle_core in Hc.
+    apply Is_true_true in Hc. rewrite !andb_true_iff, bool_decide_eq_true in Hc. simpl. tauto.
+Qed.
+
+Lemma take_idle_threads_inv f0 c0 h : inv f0 c0 h -> 0 < h_cnt h ->
+  inv f0 c0 (take_idle_threads t o h) ∧
+  (h_from h ⊆ online t -> h_cnt h <= sz (h_from h) -> h_cnt (take_idle_threads t o h) = 0).
+Proof.
+  intros Hi Hpos. unfold take_idle_threads.
+  destruct Hok as (_ & _ & Hp & _). specialize (Hp h).
+  set (cand := filter _ (t_cpus t)) in *. specialize (Hp cand).
+  destruct (o_threads o h cand) as [sorted lvl]; simpl in Hp.
+  destruct Hwf as (Hnd & _).
+  assert (HndS : NoDup (map c_id sorted)).
+  { rewrite Hp. eapply NoDup_submseteq_mono; [|exact Hnd]. apply (fmap_submseteq c_id), filter_submseteq. }
+  destruct (take_each_inv f0 c0 sorted (bump lvl h)) as [H1 H2]; [done| |by apply bump_inv|done|].
+  { apply Forall_forall. intros c Hc. rewrite Hp in Hc. apply elem_of_list_filter in Hc as [Hc _].
+    apply bool_decide_unpack in Hc. simpl. set_solver. }
+  split; [done|]. intros Hon Hle. apply H2. cbn [bump h_cnt].
+  etrans; [exact Hle|]. rewrite Hp.
+  (* every CPU of from is the id of a candidate *)
+  assert (Hsub : h_from h ⊆ list_to_set (map c_id cand)).
+  { intros x Hx. apply elem_of_list_to_set, elem_of_list_fmap.
+    assert (Hx' := Hon x Hx). unfold online in Hx'. apply elem_of_difference in Hx' as [Hx1 Hx2].
+    apply elem_of_list_to_set in Hx1. unfold cpu_ids in Hx1. apply elem_of_list_fmap in Hx1 as (c & -> & Hc).
+    exists c. split; [done|]. apply elem_of_list_filter. split; [|done].
+    apply bool_decide_pack. set_solver. }
+  apply sz_subseteq in Hsub. etrans; [exact Hsub|]. unfold sz.
+  rewrite size_list_to_set.
+  - rewrite fmap_length. lia.
+  - eapply NoDup_submseteq_mono; [|exact Hnd]. apply (fmap_submseteq c_id), filter_submseteq.
+Qed.
+
+Lemma cl_cset_sub c : cl_cset t c ⊆ cl_cpus c.
+Proof. unfold cl_cset. set_solver. Qed.
+
+Lemma take_idle_clusters_inv f0 c0 h : inv f0 c0 h -> inv f0 c0 (take_idle_clusters t o prefer h).
+Proof.
+  intros Hi. unfold take_idle_clusters.
+  destruct (Z.of_nat (length (t_clusters t)) <=? 1); [done|].
+  destruct Hok as (_ & _ & _ & Hp & _). specialize (Hp h).
+  set (picked := filter _ (t_clusters t)) in *. specialize (Hp picked).
+  destruct (o_clusters o h picked) as [sorted lvl]; simpl in Hp.
+  assert (Hsub : Forall (λ s, s ⊆ h_from (bump lvl h)) (map (cl_cset t) sorted)).
+  { apply Forall_fmap, Forall_forall. intros c Hc. rewrite Hp in Hc.
+    apply elem_of_list_filter in Hc as [Hc _]. unfold cluster_idle in Hc.
+    apply Is_true_true in Hc. rewrite !andb_true_iff, !bool_decide_eq_true in Hc.
+    destruct Hc as (_ & _ & Hc). simpl. set_solver. }
+  assert (HPD : PD (map (cl_cset t) sorted)).
+  { destruct Hwf as (_ & _ & _ & HPD & _).
+    eapply (PD_derived (cl_cset t) cl_cpus); [apply cl_cset_sub|exact HPD|exact Hp]. }
+  destruct sorted as [|c rest]; [by apply bump_inv|].
+  destruct (sz (cl_cset t c) =? h_cnt (bump lvl h)) eqn:E.
+  { apply Z.eqb_eq in E. apply take_inv; [by apply bump_inv| |lia].
+    by apply Forall_cons in Hsub as [? _]. }
+  destruct (h_cnt (bump lvl h) <? sz (cl_cset t c)); [by apply bump_inv|].
+  apply take_until_misfit_inv; [done|done|by apply bump_inv].
+Qed.
+
+End stage_proofs.
+
+(* ================================================================ nested allocation, cache groups *)
+Section cg_proofs.
+Context (t : topo) (o : orders) (prefer : prio) (Hwf : topo_wf t) (Hok : orders_ok o).
+
+(* the nested cores+threads allocation returns a subset of its candidate set with at most
+   (on success exactly) cnt CPUs, or nothing *)
+Lemma alloc_sub_spec from cnt : 0 <= cnt ->
+  (alloc_sub t o from cnt).1 ⊆ from ∧ 0 <= sz (alloc_sub t o from cnt).1 <= cnt.
+Proof.
+  intros Hc. unfold alloc_sub.
+  set (h0 := Helper from cnt ∅ 0).
+  assert (H0 : inv from cnt h0).
+  { unfold inv, h0; simpl. rewrite sz_empty. split; [set_solver|]. split; [set_solver|lia]. }
+  set (h1 := if 0 <? h_cnt h0 then take_idle_cores t o h0 else h0).
+  assert (H1 : inv from cnt h1).
+  { unfold h1. destruct (0 <? h_cnt h0); [by apply take_idle_cores_inv|done]. }
+  set (h2 := if 0 <? h_cnt h1 then take_idle_threads t o h1 else h1).
+  assert (H2 : inv from cnt h2).
+  { unfold h2. destruct (0 <? h_cnt h1) eqn:E; [|done].
+    apply Z.ltb_lt in E. by apply take_idle_threads_inv. }
+  cbn [fst]. destruct H2 as (Hd & Hu & Hs & Hn).
+  destruct (h_cnt h2 =? 0) eqn:E.
+  - apply Z.eqb_eq in E. split; [set_solver|]. pose proof (sz_nonneg (h_res h2)). lia.
+  - rewrite sz_empty. split; [set_solver|lia].
+Qed.
+
+Definition lfrom (st : cpuset * cpuset * Z * N) : cpuset := st.1.1.2.
+Definition lcnt (st : cpuset * cpuset * Z * N) : Z := st.1.2.
+Definition linv (f0 : cpuset) (c0 : Z) (st : cpuset * cpuset * Z * N) : Prop :=
+  inv f0 c0 (Helper st.1.1.2 st.1.2 st.1.1.1 st.2).
+
+Lemma ltake_inv f0 c0 s st : linv f0 c0 st -> s ⊆ lfrom st -> sz s <= lcnt st -> linv f0 c0 (ltake s st).
+Proof.
+  destruct st as [[[res from] cnt] lvl]. unfold linv, lfrom, lcnt; cbn [ltake fst snd].
+  intros Hi Hs Hle. exact (take_inv _ _ s _ Hi Hs Hle).
+Qed.
+
+Lemma ltake_from s st : lfrom (ltake s st) = lfrom st ∖ s.
+Proof. by destruct st as [[[res from] cnt] lvl]. Qed.
+Lemma ltake_cnt s st : lcnt (ltake s st) = lcnt st - sz s.
+Proof. by destruct st as [[[res from] cnt] lvl]. Qed.
+
+Lemma linv_lvl f0 c0 res from cnt l1 l2 : linv f0 c0 (res, from, cnt, l1) -> linv f0 c0 (res, from, cnt, l2).
+Proof. done. Qed.
+
+Definition frame (gs : list cpuset) (st st' : cpuset * cpuset * Z * N) : Prop :=
+  ∀ s, s ⊆ lfrom st -> Forall (λ x, s ## x) gs -> s ⊆ lfrom st'.
+
+Lemma rest_sub (s : cpuset) (rest : list cpuset) (from : cpuset) (u : cpuset) :
+  u ⊆ s -> Forall (λ y, s ## y) rest -> Forall (λ x, x ⊆ from) rest -> Forall (λ x, x ⊆ from ∖ u) rest.
+Proof.
+  intros Hu Hs HF. rewrite Forall_forall in Hs, HF |- *. intros y Hy.
+  specialize (Hs y Hy). specialize (HF y Hy). set_solver.
+Qed.
+
+Lemma cg_prefer_loop_inv f0 c0 h gs : ∀ st,
+  PD (map (cg_free t h) gs) -> Forall (λ x, x ⊆ lfrom st) (map (cg_free t h) gs) -> linv f0 c0 st ->
+  linv f0 c0 (cg_prefer_loop t o h gs st) ∧ frame (map (cg_free t h) gs) st (cg_prefer_loop t o h gs st).
+Proof.
+  induction gs as [|g rest IH]; intros st HP HF Hi; cbn [cg_prefer_loop map].
+  { split; [done|]. by intros s Hs _. }
+  destruct st as [[[res from] cnt] lvl].
+  destruct (cnt <=? 0) eqn:E0. { split; [done|]. by intros s Hs _. }
+  apply Z.leb_gt in E0.
+  cbn [map] in HP, HF. destruct HP as [Hg HP]. apply Forall_cons in HF as [Hgf HF].
+  set (cs := cg_free t h g) in *.
+  destruct (sz cs <=? cnt) eqn:E1.
+  - apply Z.leb_le in E1.
+    destruct (IH (ltake cs (res, from, cnt, lvl))) as [H1 H2]; [done| |by apply ltake_inv|].
+    { rewrite ltake_from. by apply rest_sub with cs. }
+    split; [done|]. intros s Hs Hd. apply Forall_cons in Hd as [Hd1 Hd2].
+    apply H2; [|done]. rewrite ltake_from. unfold lfrom in *; simpl in *. set_solver.
+  - destruct (alloc_sub_spec cs cnt) as [Hu1 Hu2]; [lia|].
+    destruct (alloc_sub t o cs cnt) as [use l2]; cbn [fst] in Hu1, Hu2.
+    assert (Hi' : linv f0 c0 (ltake use (res, from, cnt, N.max lvl l2))).
+    { apply ltake_inv; [by apply (linv_lvl _ _ _ _ _ lvl)| |unfold lcnt; simpl; lia].
+      unfold lfrom in *; simpl in *. set_solver. }
+    destruct (IH (ltake use (res, from, cnt, N.max lvl l2))) as [H1 H2]; [done| |done|].
+    { rewrite ltake_from. by apply rest_sub with cs. }
+    split; [done|]. intros s Hs Hd. apply Forall_cons in Hd as [Hd1 Hd2].
+    apply H2; [|done]. rewrite ltake_from. unfold lfrom in *; simpl in *. set_solver.
+Qed.
+
+(* the loop that takes whole usable groups: either it stopped before the last group (whose free
+   CPUs are then untouched), or it took every group *)
+Lemma cg_take_first_inv f0 c0 h gs : ∀ st,
+  PD (map (cg_free t h) gs) -> Forall (λ x, x ⊆ lfrom st) (map (cg_free t h) gs) -> linv f0 c0 st ->
+  let st' := cg_take_first t h gs st in
+  linv f0 c0 st' ∧
+  (∀ g, last gs = Some g -> cg_free t h g ⊆ lfrom st' ∨ lcnt st' = lcnt st - sum_free t h gs).
+Proof.
+  induction gs as [|g rest IH]; intros st HP HF Hi; cbn [cg_take_first map].
+  { split; [done|]. intros g. by rewrite last_nil. }
+  cbn [map] in HP, HF. destruct HP as [Hg HP]. apply Forall_cons in HF as [Hgf HF].
+  set (cs := cg_free t h g) in *.
+  change (st.1.2) with (lcnt st).
+  destruct (lcnt st <? sz cs) eqn:E.
+  - split; [done|]. intros g' Hl. left.
+    destruct rest as [|g2 rest']; [injection Hl as <-; done|].
+    rewrite last_cons_cons in Hl. apply last_Some in Hl as [l' Hl].
+    rewrite Forall_forall in HF. apply HF. rewrite Hl, fmap_app. apply elem_of_app. right. by left.
+  - apply Z.ltb_ge in E.
+    destruct (IH (ltake cs st)) as [H1 H2]; [done| |by apply ltake_inv|].
+    { rewrite ltake_from. by apply rest_sub with cs. }
+    split; [done|]. intros g' Hl.
+    destruct rest as [|g2 rest'].
+    + right. cbn [cg_take_first sum_free fold_right]. rewrite ltake_cnt. fold cs. lia.
+    + rewrite last_cons_cons in Hl. destruct (H2 g' Hl) as [Hs|Hc]; [by left|right].
+      rewrite Hc, ltake_cnt. unfold sum_free; cbn [fold_right]. fold cs. lia.
+Qed.
+
+Lemma same_size_pick_dead sizes cnt : same_size_pick sizes cnt = (0, 0).
+Proof.
+  unfold same_size_pick. generalize sizes at 1. intros all.
+  induction sizes as [|s rest IH]; cbn [fold_left]; [done|].
+  destruct ((0 <? s) && (s <? cnt) && (Z.rem cnt s =? 0)) eqn:E; [|exact IH].
+  rewrite !andb_true_iff in E. destruct E as [[E1 E2] _].
+  apply Z.ltb_lt in E1, E2.
+  assert (Hq : 0 <= Z.quot cnt s) by (apply Z.quot_pos; lia).
+  cbn [snd]. replace (Z.quot cnt s <? 0) with false by (symmetry; apply Z.ltb_ge; lia).
+  rewrite andb_false_r. exact IH.
+Qed.
+
+Lemma scan_totals_spec sizes cnt : ∀ i total k c,
+  scan_totals sizes cnt i total = (k, c) ->
+  ∃ j, (j <= length sizes)%nat ∧ k = (i + j)%nat ∧ c = total + fold_right Z.add 0 (firstn j sizes).
+Proof.
+  induction sizes as [|s rest IH]; intros i total k c; cbn [scan_totals].
+  { intros [= <- <-]. exists 0%nat. simpl. split; [lia|]. split; [lia|lia]. }
+  destruct (cnt <=? total + s).
+  - intros [= <- <-]. exists 1%nat. simpl. split; [lia|]. split; [lia|lia].
+  - intros H. apply IH in H as (j & Hj & -> & ->). exists (S j). simpl. split; [lia|]. split; lia.
+Qed.
+
+Lemma same_pkg_prefix_app pkg gs : ∃ rest, gs = same_pkg_prefix pkg gs ++ rest.
+Proof.
+  induction gs as [|g gs [rest IH]]; [by exists []|]. cbn [same_pkg_prefix].
+  destruct (cg_pkg g =? pkg); [|by eexists]. exists rest. simpl. by f_equal.
+Qed.
+
+Lemma sum_free_firstn h j gs :
+  sum_free t h (firstn j gs) = fold_right Z.add 0 (firstn j (map (λ g, sz (cg_free t h g)) gs)).
+Proof.
+  unfold sum_free. revert gs. induction j as [|j IH]; intros [|g gs]; simpl; try done.
+  f_equal. apply IH.
+Qed.
+
+Lemma cg_use_usable_inv f0 c0 h usable chosen st :
+  inv f0 c0 h -> linv f0 c0 st -> 0 < lcnt st ->
+  PD (map (cg_free t h) usable) -> Forall (λ x, x ⊆ lfrom st) (map (cg_free t h) usable) ->
+  inv f0 c0 (cg_use_usable t o h usable chosen st).
+Proof.
+  intros Hh Hi Hpos HP HF. unfold cg_use_usable.
+  destruct (same_pkg_prefix_app chosen usable) as [tail Htail].
+  set (cand := same_pkg_prefix chosen usable) in *.
+  destruct (filter _ cand) as [|g fl] eqn:Efl.
+  2: { (* exact single group *)
+    assert (Hg : g ∈ filter (λ g, sz (cg_free t h g) =? st.1.2) cand) by (rewrite Efl; left).
+    apply elem_of_list_filter in Hg as [Hsz Hg]. apply Is_true_true, Z.eqb_eq in Hsz.
+    assert (Hsub : cg_free t h g ⊆ lfrom st).
+    { rewrite Forall_forall in HF. apply HF. apply elem_of_list_fmap. exists g. split; [done|].
+      rewrite Htail. apply elem_of_app. by left. }
+    pose proof (ltake_inv f0 c0 (cg_free t h g) st Hi Hsub) as Ht.
+    destruct st as [[[res from] cnt] lvl]. unfold lcnt in *; cbn [fst snd] in *.
+    specialize (Ht ltac:(lia)). unfold linv in Ht; cbn [ltake fst snd] in Ht.
+    unfold commit. replace (cnt - sz (cg_free t h g)) with 0 in Ht by lia. exact Ht. }
+  rewrite same_size_pick_dead. cbn [Z.eqb negb andb].
+  destruct (scan_totals _ _ 0 0) as [grp_cnt cpu_cnt] eqn:Escan.
+  destruct (cpu_cnt <? st.1.2) eqn:Ecpu; [done|]. apply Z.ltb_ge in Ecpu.
+  apply scan_totals_spec in Escan as (j & Hj & -> & ->). rewrite map_length in Hj.
+  simpl in Ecpu |- *.
+  assert (Hfirst : firstn j usable = firstn j cand).
+  { rewrite Htail. by rewrite take_app_le. }
+  assert (HPj : PD (map (cg_free t h) (firstn j usable))).
+  { eapply PD_submseteq; [|exact HP]. apply (fmap_submseteq (cg_free t h)), sublist_submseteq, sublist_take. }
+  assert (HFj : Forall (λ x, x ⊆ lfrom st) (map (cg_free t h) (firstn j usable))).
+  { rewrite Forall_forall in HF |- *. intros x Hx. apply HF.
+    apply elem_of_list_fmap in Hx as (g & -> & Hg). apply elem_of_list_fmap. exists g. split; [done|].
+    eapply elem_of_submseteq; [exact Hg|]. apply sublist_submseteq, sublist_take. }
+  destruct (cg_take_first_inv f0 c0 h (firstn j usable) st HPj HFj Hi) as [Hi2 Hlast].
+  set (st2 := cg_take_first t h (firstn j usable) st) in *.
+  assert (Hi3 : ∀ st3, st3 = (if 0 <? st2.1.2 then
+          match last (firstn j usable) with
+          | Some g => let '(use, l3) := alloc_sub t o (cg_free t h g) st2.1.2 in
+                      ltake use (st2.1.1.1, st2.1.1.2, st2.1.2, N.max st2.2 l3)
+          | None => st2 end else st2) -> linv f0 c0 st3).
+  { intros st3 ->. destruct (0 <? st2.1.2) eqn:E2; [|done]. apply Z.ltb_lt in E2.
+    destruct (last (firstn j usable)) as [g|] eqn:El; [|done].
+    destruct (alloc_sub_spec (cg_free t h g) (st2.1.2)) as [Hu1 Hu2]; [lia|].
+    destruct (alloc_sub t o (cg_free t h g) st2.1.2) as [use l3]; cbn [fst] in Hu1, Hu2.
+    destruct (Hlast g eq_refl) as [Hs|Hc].
+    - apply ltake_inv; [destruct st2 as [[[? ?] ?] ?]; exact Hi2| |unfold lcnt; simpl; lia].
+      unfold lfrom in *; simpl in *. set_solver.
+    - exfalso. rewrite Hfirst, sum_free_firstn in Hc. unfold lcnt in Hc. lia. }
+  match goal with |- context [if negb (?x.1.2 =? 0) then _ else _] => set (st3 := x) in * end.
+  specialize (Hi3 st3 eq_refl).
+  destruct (st3.1.2 =? 0) eqn:E3; cbn [negb]; [|done].
+  apply Z.eqb_eq in E3. destruct st3 as [[[res3 from3] cnt3] lvl3]. cbn [fst snd] in *. subst cnt3. exact Hi3.
+Qed.
+
+Lemma filter_excl_submseteq {A} (P Q : A -> Prop) `{!∀ x, Decision (P x)} `{!∀ x, Decision (Q x)} (l : list A) :
+  (∀ x, P x -> Q x -> False) -> filter P l ++ filter Q l ⊆+ l.
+Proof.
+  intros Hex. induction l as [|x l IH]; [done|]. rewrite !filter_cons.
+  destruct (decide (P x)) as [HPx|HPx]; destruct (decide (Q x)) as [HQx|HQx].
+  - by destruct (Hex x).
+  - simpl. by constructor.
+  - etrans; [apply Permutation_submseteq; symmetry; apply Permutation_middle|]. by constructor.
+  - by constructor.
+Qed.
+
+Lemma cg_free_sub h g : cg_free t h g ⊆ cg_cpus g.
+Proof. unfold cg_free. set_solver. Qed.
+
+Lemma cg_allocate_inv f0 c0 h pref usable :
+  inv f0 c0 h -> PD (map (cg_free t h) (pref ++ usable)) -> inv f0 c0 (cg_allocate t o h pref usable).
+Proof.
+  intros Hi HP. unfold cg_allocate.
+  match goal with |- context [if ?c <? h_cnt h then _ else _] => destruct (c <? h_cnt h); [done|] end.
+  assert (Hl0 : linv f0 c0 (h_res h, h_from h, h_cnt h, h_lvl h)) by (destruct h; exact Hi).
+  assert (HPp : PD (map (cg_free t h) pref)).
+  { eapply PD_submseteq; [|exact HP]. apply (fmap_submseteq (cg_free t h)), sublist_submseteq, sublist_inserts_r. done. }
+  assert (HFp : Forall (λ x, x ⊆ h_from h) (map (cg_free t h) pref)).
+  { apply Forall_fmap, Forall_forall. intros g _. unfold cg_free. simpl. set_solver. }
+  destruct (cg_prefer_loop_inv f0 c0 h pref (h_res h, h_from h, h_cnt h, h_lvl h) HPp HFp Hl0) as [H1 H2].
+  set (st := cg_prefer_loop t o h pref _) in *.
+  destruct (st.1.2 <=? 0) eqn:E.
+  { destruct st as [[[res from] cnt] lvl]. exact H1. }
+  apply Z.leb_gt in E. apply cg_use_usable_inv; [done|done|done| |].
+  - rewrite fmap_app in HP. by apply PD_app_inv_r in HP.
+  - apply Forall_fmap, Forall_forall. intros g Hg. simpl. apply H2.
+    + unfold lfrom, cg_free. simpl. set_solver.
+    + apply Forall_forall. intros x Hx. symmetry. rewrite fmap_app in HP.
+      eapply PD_app_disj; [exact HP|exact Hx|]. apply elem_of_list_fmap. eauto.
+Qed.
+
+Lemma take_cache_groups_inv f0 c0 h : inv f0 c0 h -> inv f0 c0 (take_cache_groups t o prefer h).
+Proof.
+  intros Hi. unfold take_cache_groups.
+  destruct (Z.of_nat (length (t_groups t)) <=? 1); [done|].
+  destruct (h_cnt h <? 2); [done|].
+  destruct Hok as (_ & _ & _ & _ & Hp1 & Hp2).
+  set (prefer0 := filter _ (t_groups t)). set (usable0 := filter _ (t_groups t)).
+  specialize (Hp1 h usable0 prefer0).
+  destruct (o_cgprefer o h usable0 prefer0) as [pref l1]; simpl in Hp1.
+  specialize (Hp2 h pref usable0).
+  destruct (o_cgusable o h pref usable0) as [usable l2]; simpl in Hp2.
+  apply cg_allocate_inv; [by apply bump_inv|].
+  destruct Hwf as (_ & _ & _ & _ & HPD).
+  apply PD_shrink with (map cg_cpus (pref ++ usable)); [apply map_shrink; intros; apply cg_free_sub|].
+  eapply PD_submseteq; [|exact HPD]. apply (fmap_submseteq cg_cpus).
+  rewrite Hp1, Hp2. apply filter_excl_submseteq.
+  intros g H1 H2. destruct (cg_pick t prefer h g); done.
+Qed.
+
+End cg_proofs.
